@@ -3,7 +3,7 @@
    argument, regenerated from the current source into Gen/ZobristKeys.v (so an index formula that
    aliases two entries shows up as a duplicate).  Statements only. *)
 From Coq Require Import NArith List Bool.
-From LC Require Import Bits Types BitboardModel ZobristModel ZobristFacts.
+From LC Require Import Bits Types BitboardModel ZobristModel ZobristFacts ZobristFour.
 From LC.Gen Require Import ZobristKeys.
 Import ListNotations.
 Local Open Scope N_scope.
@@ -44,6 +44,15 @@ Proof.
            (eq_ind_r (fun n => (i < n)%nat) Hi keys_len) (eq_ind_r (fun n => (j < n)%nat) Hj keys_len)).
 Qed.
 
+(* beyond the property: THREE and FOUR differing features too — no XOR of one to four distinct keys of the regenerated
+   table is zero (all 305 372 values 0, k, k1^k2 are pairwise distinct: sorted and compared by the kernel's VM) *)
+Theorem C15_no_zero_xor_upto_four : forall ks, NoDup ks -> incl ks keys781 -> (1 <= length ks <= 4)%nat -> xor_all ks <> 0.
+Proof. exact no_zero_xor_upto4. Qed.
+Theorem C15_differ_in_upto_four : forall common A B, NoDup (A ++ B) -> incl (A ++ B) keys781 -> (1 <= length A + length B <= 4)%nat ->
+  xor_all (common ++ A) <> xor_all (common ++ B).
+Proof. exact differ_upto4. Qed.
+
+Print Assumptions C15_no_zero_xor_upto_four. Print Assumptions C15_differ_in_upto_four.
 Print Assumptions C15_count. Print Assumptions C15_nonzero. Print Assumptions C15_pairwise_distinct.
 Print Assumptions C15_ep_key_by_file. Print Assumptions C15_piece_index_injective.
 Print Assumptions C15_differ_in_one. Print Assumptions C15_differ_in_two_same_side. Print Assumptions C15_differ_in_two_opposite.
